@@ -224,7 +224,7 @@ fn comp_strategy() -> BoxedStrategy<CompCase> {
     (
         prop_oneof![Just(Be::FftRef), Just(Be::FftAvx), Just(Be::NttRef), Just(Be::NttAvx)],
         0u8..2,
-        0u8..12,
+        0u8..13,
         0u8..4,
         1u8..=10,
         prop::collection::vec((2u8..=8, 12u8..=44, 4u8..=12, any::<u8>()), 3..6),
@@ -372,7 +372,7 @@ fn strategy() -> BoxedStrategy<Case> {
         .boxed()
 }
 
-pub const RULE: &str = "cases = (backend, one of two parameter sets per family (radix 19/16 for FFT64, 52/30 for NTT120; N = 64/32; key dsize 1/2), a straight-line program: two fresh encryptions (independent limb counts 3..8, log_delta 14..44, plaintext budget 5..11, generated slot values) followed by 1..13 generated steps over a 4-register file among: encrypt (plaintext budget up to 34 bits, slot magnitudes up to 2^31, so that both integer widths of the encoder / decoder occur), add/sub/mul (into a destination of 1..10 limbs or in place), neg, square, add / sub / mul with an encoded plaintext vector, add / sub / mul with a complex constant (RNX forms, independent plaintext precision), mul_pow2, div_pow2, rotate (keys present for some rotations, absent for others), conjugate, rescale, align, compact_limbs (result must have the minimum limb count), reallocate_limbs). Oracle after every step: Result matches the model of the budget algebra (Ok, or the expected CKKSCompositionError kind; never a panic; metadata unchanged when an in-place step fails), (log_delta, log_budget) equal the model, log_delta + log_budget <= stored precision, and every live register decrypts and decodes to the shadow program on complex f64 within the tracked worst-case error bound (proportional to 2^-log_delta). non-trivial = at least two executed steps after adaptation. Sub-check composite_ops: multiply-add / multiply-subtract with a ciphertext, an encoded vector or a constant (six forms) must equal, bit for bit and in their Result, the product into a buffer shaped like the destination followed by the in-place sum; ckks_add_many (1..4 inputs) against the chain of two-operand additions (Result, metadata) and the f64 sum; ckks_dot_product_ct (1..4 pairs, one log_delta per side) against the model of the budget algebra and the f64 dot product; ckks_mul_many (1..4 factors) against invariants and the f64 product. Sub-check encode_decode_roundtrip: slot encoding -> to_znx -> decode_from_znx -> slot decoding for f64 and f128, N 4..512, radix 4..52, log_delta 6..120, log_budget 3..60, magnitudes up to a quarter of the budget: identity within N*2^-log_delta + 64*N*eps*magnitude, and an error value (never a panic or a wrapped value) beyond the element type's precision.";
+pub const RULE: &str = "cases = (backend, one of two parameter sets per family (radix 19/16 for FFT64, 52/30 for NTT120; N = 64/32; key dsize 1/2), a straight-line program: two fresh encryptions (independent limb counts 3..8, log_delta 14..44, plaintext budget 5..11, generated slot values) followed by 1..13 generated steps over a 4-register file among: encrypt (plaintext budget up to 34 bits, slot magnitudes up to 2^31, so that both integer widths of the encoder / decoder occur), add/sub/mul (into a destination of 1..10 limbs or in place), neg, square, add / sub / mul with an encoded plaintext vector, add / sub / mul with a complex constant (RNX forms, and half of the cases a caller-built ZNX constant quantised as documented: to_znx_at_k at the destination's capacity for add / sub, to_znx for the product; independent plaintext precision), mul_pow2, div_pow2, rotate (keys present for some rotations, absent for others), conjugate, rescale, align, compact_limbs (result must have the minimum limb count), reallocate_limbs). Oracle after every step: Result matches the model of the budget algebra (Ok, or the expected CKKSCompositionError kind; never a panic; metadata unchanged when an in-place step fails), (log_delta, log_budget) equal the model, log_delta + log_budget <= stored precision, and every live register decrypts and decodes to the shadow program on complex f64 within the tracked worst-case error bound (proportional to 2^-log_delta). non-trivial = at least two executed steps after adaptation. Sub-check composite_ops: multiply-add / multiply-subtract with a ciphertext, an encoded vector or a constant (six forms) must equal, bit for bit and in their Result, the product into a buffer shaped like the destination followed by the in-place sum; ckks_add_many (1..4 inputs) against the chain of two-operand additions (Result, metadata) and the f64 sum; ckks_dot_product_ct (1..4 pairs, one log_delta per side) against the model of the budget algebra and the f64 dot product; ckks_mul_many (1..4 factors) against invariants and the f64 product; the twenty un-normalised (*_unsafe) forms of add / sub (ciphertext, RNX / ZNX vector, RNX / ZNX constant; into and in place) followed by glwe_normalize_assign against the normalising form (same Result kind, same metadata, same torus elements). Sub-check encode_decode_roundtrip: slot encoding -> to_znx -> decode_from_znx -> slot decoding for f64 and f128, N 4..512, radix 4..52, log_delta 6..120, log_budget 3..60, magnitudes up to a quarter of the budget: identity within N*2^-log_delta + 64*N*eps*magnitude, and an error value (never a panic or a wrapped value) beyond the element type's precision.";
 
 fn main() {
     install_panic_hook();
